@@ -625,6 +625,13 @@ type Case struct {
 	raw any
 }
 
+// SendTo and SendCaseTo fix the element type from the channel alone, so that the value is converted by ordinary
+// assignability (errs <- &MyError{} on a chan error) exactly as in a send statement.
+func SendTo[T any](c chan<- T) func(T) { return func(v T) { Send(c, v) } }
+func SendCaseTo[T any](c chan<- T) func(T) Case {
+	return func(v T) Case { return SendCase(c, v) }
+}
+
 func SendCase[T any](c chan<- T, v T) Case { return Case{c: selCase{send: true, val: v}, raw: c} }
 func RecvCase[T any](c <-chan T) Case      { return Case{c: selCase{}, raw: c} }
 
